@@ -734,7 +734,8 @@ def c12_replay(rep, tier, seed, new_sites=()):
                 ("corpus/macro_iso.py", {}), ("corpus/complex_ops.py", {"scalar_type": "complex128"}), ("corpus/two_meshes.py", {})]
         variants = [(1 + seed % 5, 0), (0, 2), (0, 3)]
     else:
-        jobs = C.demo_files() + C.corpus_files()
+        # excluded: a form whose UFL signature itself depends on the digits of the mesh ids (see the corpus file's docstring)
+        jobs = [j for j in C.demo_files() + C.corpus_files() if j[0] != "corpus/two_meshes_shared_symbol.py"]
         variants = [(1, 0), (2 + seed % 7, 0), (0, 1), (0, 2), (0, 3)]
 
     def one(j):
